@@ -16,8 +16,10 @@ impl_oracle_failures = []
 JANET = r'''
 (def lines (string/split "\n" (string/trim (slurp (os/getenv "C08_SEQ")))))
 (each line lines
-  (def toks (filter |(not (empty? $)) (string/split " " line)))
-  (def c (ev/thread-chan 100000))
+  (def toks0 (filter |(not (empty? $)) (string/split " " line)))
+  (def c (ev/thread-chan (scan-number (string/slice (toks0 0) 1))))
+  (def toks (array/slice toks0 1))
+  (def glog @[])
   (def fibers @{})
   (def dlog @[])
   (def wlog @[])
@@ -25,22 +27,40 @@ JANET = r'''
   (each op toks
     (def k (string/slice op 0 1))
     (case k
-      "g" (let [[f x] (string/split ":" (string/slice op 1))] (try (ev/give c (scan-number x)) ([e] nil)))
+      # fibers sleep a different number of turns first, so that their sched_id counters differ
+      "g" (let [[fs x] (string/split ":" (string/slice op 1)) f (scan-number fs)]
+            (put fibers f (ev/spawn (repeat (% f 3) (ev/sleep 0)) (try (do (ev/give c (scan-number x)) (array/push glog f)) ([e] nil)))))
       "t" (let [f (scan-number (string/slice op 1))]
-            (put fibers f (ev/spawn (try (let [v (ev/take c)] (if (nil? v) (array/push wlog f) (array/push dlog [f v]))) ([e] nil)))))
+            (put fibers f (ev/spawn (repeat (% f 2) (ev/sleep 0))
+                            (try (let [v (ev/take c)] (if (nil? v) (array/push wlog f) (array/push dlog [f v]))) ([e] nil)))))
       "a" (let [fb (get fibers (scan-number (string/slice op 1)))] (if (and fb (fiber/can-resume? fb)) (ev/cancel fb "abandon")))
       "c" (ev/chan-close c))
-    (repeat 10 (ev/sleep 0))
+    (repeat 16 (ev/sleep 0))
     (array/push out (string (ev/count c) " d=" (string/join (map (fn [[f v]] (string f ":" v)) dlog) ",")
-                            " w=" (string/join (map string (sort (array/slice wlog))) ","))))
+                            " w=" (string/join (map string (sort (array/slice wlog))) ",")
+                            " g=" (string/join (map string (sort (array/slice glog))) ","))))
   (print (string/join out " ; "))
   # release whoever still waits so the loop can end
   (ev/chan-close c)
-  (repeat 3 (ev/sleep 0)))
+  (repeat 3 (ev/sleep 0))
+  # a fiber that is still parked here lost its wake-up (already recorded in the observation): do not let it keep the loop alive
+  (eachp [_ fb] fibers (if (fiber/can-resume? fb) (ev/cancel fb "end of history")))
+  (ev/sleep 0))
 '''
 
 
 def corpus_sequences():
+    big = [["L100000"] + q for q in _corpus_big()]
+    return big + [
+        # parked writers: an earlier one gives up, the wake-up must be forwarded to the later one with ITS sched_id
+        ["L1", "g1:10", "g2:20", "g3:30", "a2", "t4", "t5"],
+        ["L0", "g1:10", "g2:20", "g4:30", "a1", "a2", "t5", "t6", "t7"],
+        ["L1", "g1:10", "g2:20", "g3:30", "g4:40", "a2", "a3", "t5", "t6", "c"],
+        ["L2", "g1:1", "g2:2", "g3:3", "g5:4", "a3", "t6", "t7", "t8", "t9"],
+    ]
+
+
+def _corpus_big():
     return [
         ["t0", "a0", "g9:7", "t1"],                       # the lost-message witness (exactly_once_counterexample)
         ["t0", "a0", "g9:1", "g9:2", "t5", "t6"],         # the reorder witness
@@ -53,27 +73,38 @@ def corpus_sequences():
 
 
 def gen_sequence(rng):
-    n = rng.range(3, 14)
-    ops, nf, nx, waiting = [], 0, 0, []
+    n = rng.range(3, 16)
+    limit = rng.choice([0, 1, 1, 2, 3, 100000, 100000])
+    ops, nf, nx, waiting = ["L%d" % limit], 0, 0, []
     closed = False
+    # with a small limit start with a burst of givers so that several writers are parked
+    if limit < 100 and rng.chance(1, 2):
+        for _ in range(limit + rng.range(1, 4)):
+            nx += 1
+            ops.append("g%d:%d" % (nf, nx))
+            waiting.append(nf)
+            nf += 1 + rng.below(2)
     for _ in range(n):
         k = rng.below(100)
         if k < 35:
             ops.append("t%d" % nf)
             waiting.append(nf)
-            nf += 1
-        elif k < 70:
+            nf += 1 + rng.below(2)
+        elif k < 65:
             nx += 1
-            ops.append("g9:%d" % nx)
+            ops.append("g%d:%d" % (nf, nx))
+            waiting.append(nf)
+            nf += 1 + rng.below(2)
         elif k < 92 and waiting:
             f = rng.choice(waiting)
             ops.append("a%d" % f)
-        elif k < 96 and not closed:
+        elif k < 95 and not closed:
             ops.append("c")
             closed = True
         else:
-            nx += 1
-            ops.append("g9:%d" % nx)
+            ops.append("t%d" % nf)
+            waiting.append(nf)
+            nf += 1
     return ops
 
 
@@ -81,8 +112,8 @@ def compare(ctx, janet, exe, seqs, flags):
     """-> (diffs, number of compared lines, coverage dict)"""
     global impl_oracle_failures
     impl_oracle_failures = []
-    cfgtok = "%d %d %d %d 100000" % (int(flags["requeueOnNoReader"]), int(flags["requeueAtHead"]), int(flags["redispatchToNext"]),
-                                     int(flags["cbChecksSchedId"]))
+    cfgtok = "%d %d %d %d %d" % (int(flags["requeueOnNoReader"]), int(flags["requeueAtHead"]), int(flags["redispatchToNext"]),
+                                 int(flags["cbChecksSchedId"]), int(flags.get("forwardOwnSchedId", True)))
     d = tempfile.mkdtemp(prefix="c08seq-", dir="/var/tmp")
     try:
         sp, jp = os.path.join(d, "seqs.txt"), os.path.join(d, "run.janet")
@@ -90,18 +121,19 @@ def compare(ctx, janet, exe, seqs, flags):
             f.write("\n".join(" ".join(s) for s in seqs) + "\n")
         with open(jp, "w") as f:
             f.write(JANET)
-        r = subprocess.run([janet, jp], env=dict(os.environ, C08_SEQ=sp), stdout=subprocess.PIPE, stderr=subprocess.PIPE, timeout=900)
+        r = subprocess.run([janet, jp], env=dict(os.environ, C08_SEQ=sp), stdout=subprocess.PIPE, stderr=subprocess.PIPE, timeout=300)
         impl = r.stdout.decode(errors="replace").splitlines()
         if r.returncode != 0 or len(impl) != len(seqs):
             raise RuntimeError("op-sequence harness: rc=%r, %d/%d lines, stderr %s" % (r.returncode, len(impl), len(seqs), r.stderr.decode(errors="replace")[-400:]))
     finally:
         import shutil
         shutil.rmtree(d, ignore_errors=True)
-    model = ctx.model([cfgtok + " " + " ".join(s) for s in seqs], exe=exe)
+    model = ctx.model([cfgtok + " " + s[0][1:] + " " + " ".join(s[1:]) for s in seqs], exe=exe)
     diffs = []
     cov = {"ops": 0, "abandon": 0, "close": 0, "stale_hits": 0}
     for s, a, b in zip(seqs, impl, model):
-        cov["ops"] += len(s)
+        cov["ops"] += len(s) - 1
+        cov["parked_writer_histories"] = cov.get("parked_writer_histories", 0) + (1 if " g=" in a and s[0] != "L100000" else 0)
         cov["abandon"] += sum(1 for o in s if o[0] == "a")
         cov["close"] += sum(1 for o in s if o == "c")
         if a != b:
@@ -116,6 +148,7 @@ def compare(ctx, janet, exe, seqs, flags):
                 impl_oracle_failures.append({"sig": "malformed-receipt", "ops": " ".join(s), "observed": a, "why": "single-loop history `%s`: unparsable observation %r" % (" ".join(s), a[:200])})
                 continue
             given = [o.split(":")[1] for o in s if o[0] == "g"]
+            cnt = 0
             last = a.split(" ; ")[-1]
             cnt = int(last.split(" ")[0])
             dl = last.split(" d=")[1].split(" w=")[0]
@@ -127,4 +160,19 @@ def compare(ctx, janet, exe, seqs, flags):
                                              "why": "single-loop history `%s`: %d item(s) given, %d delivered, ev/count %d: %d item(s) vanished after being handed to a reader that had abandoned its wait"
                                                     % (" ".join(s), len(given), len(deliv), cnt, len(given) - cnt - len(deliv))})
                 cov["stale_hits"] += 1
+            else:
+                # liveness at quiescence: every item beyond the capacity accounts for at most one parked writer, and every
+                # pop wakes one: a giver that is still parked (and did not give up) needs count > limit
+                try:
+                    limit = int(s[0][1:])
+                    gdone = set(x for x in last.split(" g=")[1].split(",") if x)
+                    dl2 = last.split(" d=")[1].split(" w=")[0]
+                    gave_up = set(o[1:] for o in s if o[0] == "a")
+                    parked = [o[1:].split(":")[0] for o in s if o[0] == "g" and o[1:].split(":")[0] not in gdone and o[1:].split(":")[0] not in gave_up]
+                    if len(parked) > max(0, cnt - limit):
+                        impl_oracle_failures.append({"sig": "writer-never-resumed", "ops": " ".join(s), "observed": a,
+                                                     "why": "single-loop history `%s`: giver fiber(s) %s still blocked in ev/give although the channel holds %d item(s) (capacity %d): "
+                                                            "the wake-up was lost after an earlier parked giver abandoned its wait" % (" ".join(s), ",".join(parked), cnt, limit)})
+                except (ValueError, IndexError):
+                    pass
     return diffs, len(seqs), cov
